@@ -335,6 +335,12 @@ func panicClassifier(c Case, side, what string) string {
 			strings.Contains(what, "its a value, not a") {
 			return "map-nested-item-admitted-panic"
 		}
+	case shObjWithMap, shObjWithObj:
+		// a map / object nested in an object parameter: isParamAllowed has no root check for KindMap
+		if strings.Contains(what, "nested objects not allowed") || strings.Contains(what, "its a value, not a") {
+			return "object-nested-map-admitted-panic"
+		}
+		return "nested-shape-admitted-" + side + "-panic"
 	case shObjWithArr, shArrOfArr, shArrOfObj:
 		return "nested-shape-admitted-" + side + "-panic"
 	case shMap:
